@@ -99,10 +99,20 @@ def w_arr(ctx, rng, idx):
     res = []
     r0 = None
     noise = 0.0
+    warm = None
+    if as_list and y.shape[0] > 1 and rng.random() < 0.6:
+        # a warm start: one guess per right-hand side, all different (the results of an earlier short run on the same data, slightly
+        # perturbed) - good guesses, so that any sweep started from the wrong tensor shows as an increase of the residual
+        with probe.oracle():
+            try:
+                warm = reg.arr(x, y, bl, g, repeats=2, rcond=1e-12, progress=False)
+                warm = [tt.TT([c * (1.0 + 1e-3 * rng.standard_normal()) for c in t.cores]) for t in warm]
+            except Exception:
+                warm = None
     for rep in (1, 2, 3):
         if as_list:
             with probe.oracle():
-                guess = [tt.TT([c.copy() for c in g.cores]) for _ in range(y.shape[0])]
+                guess = [tt.TT([c.copy() for c in (warm[k] if warm is not None else g).cores]) for k in range(y.shape[0])]
             if r0 is None:
                 r0 = arr_residual(x, y, bl, guess)
         else:
